@@ -542,6 +542,12 @@ func (fn *c04Fn) classify(e ast.Expr) (prov string, keys []string, typ string) {
 			if _, ok := fn.params[id]; ok {
 				prov = "param"
 				keys = append(keys, id)
+			} else if i := strings.IndexByte(id, '.'); i > 0 {
+				// a field of a parameter (e.g. a decoded message handed to its consumer)
+				if _, ok := fn.params[id[:i]]; ok {
+					prov = "param"
+					keys = append(keys, id)
+				}
 			}
 		}
 	}
